@@ -95,7 +95,7 @@ PROPS = {
     'C05': dict(
         kani=True,
         level='proof',
-        bounded_families=['search', 'iter', 'refsem'],
+        bounded_families=['search', 'iter', 'refsem', 'progwf'],
         explanation=("vm::run is verified by Verus for every well-formed program, every text and every start offset on a char boundary: every index, slice (&s[lo..hi] in Backref included), "
                      "unwrap, subtraction and addition in all 21 instruction arms is in bounds / on a character boundary / overflow-free; the reported overall span satisfies start <= end <= len with both ends on boundaries; "
                      "the only errors are StackOverflow and BacktrackLimitExceeded. The UTF-8 stepping helpers, Match::as_str, Captures::get (no index overflow), Split::next / SplitN::next slicing are verified in their units."),
@@ -106,7 +106,7 @@ PROPS = {
                      "A3 (assume / precondition): iteration counters and the backtrack counter stay below 2^64 - 1 (backtrack_limit < usize::MAX)",
                      "A4 (assume in run, End): slots 0 and 1 have been set when End is reached",
                      "A5 (assume in run, Restore): the restored slot has been set",
-                     "prog_wf(prog): static well-formedness of the program (jump targets, slot indices, counter / position slot typing) is a PRECONDITION of run; U-COMPILE covers the functions that emit code",
+                     "prog_wf(prog): static well-formedness of the program (jump targets, slot indices, counter / position slot typing) is a PRECONDITION of run; U-COMPILE covers the functions that emit code; bounded support: replay family progwf evaluates prog_wf on real compiled programs",
                      "T-RA-search / T-RA-look: regex-automata's anchored search returns offsets in [ix, len] on char boundaries with paired slots; LookMatcher is total and the unicode word-boundary variants return Ok",
                      "the inner interpreter loop is verified with exec_allows_no_decreases_clause: termination of a non-failing instruction cycle is NOT proved"],
     ),
@@ -122,9 +122,10 @@ PROPS = {
                      "A3 (assume / precondition): iteration counters and the backtrack counter stay below 2^64 - 1 (backtrack_limit < usize::MAX)",
                      "A4 (assume in run, End): slots 0 and 1 have been set when End is reached",
                      "A5 (assume in run, Restore): the restored slot has been set",
-                     "prog_wf(prog): static well-formedness of the program (jump targets, slot indices, counter / position slot typing) is a PRECONDITION of run; U-COMPILE covers the functions that emit code",
+                     "prog_wf(prog): static well-formedness of the program (jump targets, slot indices, counter / position slot typing) is a PRECONDITION of run; U-COMPILE covers the functions that emit code; bounded support: replay family progwf evaluates prog_wf on real compiled programs",
                      "T-RA-search / T-RA-look: regex-automata's anchored search returns offsets in [ix, len] on char boundaries with paired slots; LookMatcher is total and the unicode word-boundary variants return Ok",
                      "the inner interpreter loop is verified with exec_allows_no_decreases_clause: termination of a non-failing instruction cycle is NOT proved"],
+        bounded_families=['progwf'],
     ),
     'C01': dict(
         level='proof',
@@ -138,10 +139,10 @@ PROPS = {
                      "A3 (assume / precondition): iteration counters and the backtrack counter stay below 2^64 - 1 (backtrack_limit < usize::MAX)",
                      "A4 (assume in run, End): slots 0 and 1 have been set when End is reached",
                      "A5 (assume in run, Restore): the restored slot has been set",
-                     "prog_wf(prog): static well-formedness of the program (jump targets, slot indices, counter / position slot typing) is a PRECONDITION of run; U-COMPILE covers the functions that emit code",
+                     "prog_wf(prog): static well-formedness of the program (jump targets, slot indices, counter / position slot typing) is a PRECONDITION of run; U-COMPILE covers the functions that emit code; bounded support: replay family progwf evaluates prog_wf on real compiled programs",
                      "T-RA-search / T-RA-look: regex-automata's anchored search returns offsets in [ix, len] on char boundaries with paired slots; LookMatcher is total and the unicode word-boundary variants return Ok",
                      "the inner interpreter loop is verified with exec_allows_no_decreases_clause: termination of a non-failing instruction cycle is NOT proved"],
-        bounded_families=['refsem'],
+        bounded_families=['refsem', 'progwf'],
     ),
     'C02': dict(
         level='proof',
@@ -153,7 +154,7 @@ PROPS = {
                      "A3 (assume / precondition): iteration counters and the backtrack counter stay below 2^64 - 1 (backtrack_limit < usize::MAX)",
                      "A4 (assume in run, End): slots 0 and 1 have been set when End is reached",
                      "A5 (assume in run, Restore): the restored slot has been set",
-                     "prog_wf(prog): static well-formedness of the program (jump targets, slot indices, counter / position slot typing) is a PRECONDITION of run; U-COMPILE covers the functions that emit code",
+                     "prog_wf(prog): static well-formedness of the program (jump targets, slot indices, counter / position slot typing) is a PRECONDITION of run; U-COMPILE covers the functions that emit code; bounded support: replay family progwf evaluates prog_wf on real compiled programs",
                      "T-RA-search / T-RA-look: regex-automata's anchored search returns offsets in [ix, len] on char boundaries with paired slots; LookMatcher is total and the unicode word-boundary variants return Ok",
                      "the inner interpreter loop is verified with exec_allows_no_decreases_clause: termination of a non-failing instruction cycle is NOT proved"],
         bounded_families=['refsem'],
@@ -169,7 +170,7 @@ PROPS = {
                      "A3 (assume / precondition): iteration counters and the backtrack counter stay below 2^64 - 1 (backtrack_limit < usize::MAX)",
                      "A4 (assume in run, End): slots 0 and 1 have been set when End is reached",
                      "A5 (assume in run, Restore): the restored slot has been set",
-                     "prog_wf(prog): static well-formedness of the program (jump targets, slot indices, counter / position slot typing) is a PRECONDITION of run; U-COMPILE covers the functions that emit code",
+                     "prog_wf(prog): static well-formedness of the program (jump targets, slot indices, counter / position slot typing) is a PRECONDITION of run; U-COMPILE covers the functions that emit code; bounded support: replay family progwf evaluates prog_wf on real compiled programs",
                      "T-RA-search / T-RA-look: regex-automata's anchored search returns offsets in [ix, len] on char boundaries with paired slots; LookMatcher is total and the unicode word-boundary variants return Ok",
                      "the inner interpreter loop is verified with exec_allows_no_decreases_clause: termination of a non-failing instruction cycle is NOT proved"],
         bounded_families=['refsem'],
